@@ -43,14 +43,18 @@ def forwardref(
         module: The python module in which the reference string is defined (optional)
         is_class: Whether the reference string is a class (default True).
     """
+    qualified = True
     if not isinstance(ref, str):
         name = inspection.qualname(ref)
         module = module or getattr(ref, "__module__", None)
+        # The qualified name of a class is a path inside its module already: a
+        #   class named like the module (`shapes.shapes.Point`) keeps its segments.
+        qualified = name != getattr(ref, "__qualname__", None)
     else:
         name = typing.cast(str, ref)
 
     module = _resolve_module_name(ref, module)
-    if module is not None:
+    if module is not None and qualified:
         name = name.replace(f"{module}.", "")
 
     return ForwardRef(
